@@ -83,6 +83,19 @@ impl TcpStream {
     pub fn local_addr(&self) -> io::Result<SocketAddr> {
         Ok(self.local)
     }
+    // Socket options: accepted and ignored (they have no meaning for the simulated TCP).
+    pub fn nodelay(&self) -> io::Result<bool> {
+        Ok(true)
+    }
+    pub fn set_nodelay(&self, _nodelay: bool) -> io::Result<()> {
+        Ok(())
+    }
+    pub fn ttl(&self) -> io::Result<u32> {
+        Ok(64)
+    }
+    pub fn set_ttl(&self, _ttl: u32) -> io::Result<()> {
+        Ok(())
+    }
     pub fn peer_addr(&self) -> io::Result<SocketAddr> {
         Ok(client_addr(self.conn))
     }
